@@ -159,6 +159,13 @@ def gen_tasks(tier, seed):
             if len(r) >= 2 and cls not in ("MinPathCover",):
                 c = [r[0], r[1]]
                 tasks.append({**base, "node_flow": nf if "PathCover" not in cls else None, "constraints": [c], "kwargs": {**kw, "subpath_constraints": [c]}})
+            if cls == "kMinPathError":
+                # node lengths + length-dependent slack factors: every boundary in turn, so one falls between the route lengths
+                nlen = {v: rng.choice((1, 2, 3)) for v in G.nodes()}
+                for B in ((3, 5) if tier == "quick" else (2, 3, 4, 5, 6, 7)):
+                    for fac in ([2.0, 1.0], [1.0, 3.0]):
+                        tasks.append({**base, "node_flow": {v: 3 * x + 1 for v, x in nf.items()}, "node_length": nlen,
+                                      "kwargs": {**kw, "length_attr": "length", "path_length_ranges": [[0, B], [B + 1, 1000]], "path_length_factors": fac}})
             if inner and cls == "MinFlowDecomp":
                 # paths may start / end at inner nodes: flow = routes of the enlarged route set (so a decomposition exists)
                 v, w = rng.choice(inner), rng.choice(inner)
@@ -215,7 +222,8 @@ def node_task(task):
     kw = dict(task["kwargs"])
     cover = "PathCover" in task["cls"]
     kw["cover_type" if cover else "flow_attr_origin"] = "node"
-    return {"cls": task["cls"], "edges": task["edges"], "node_flow": task["node_flow"], "nodes": sorted({x for e in task["edges"] for x in e}), "kwargs": kw}
+    return {"cls": task["cls"], "edges": task["edges"], "node_flow": task["node_flow"], "node_length": task.get("node_length"),
+            "nodes": sorted({x for e in task["edges"] for x in e}), "kwargs": kw}
 
 
 def expanded_task(task):
@@ -224,18 +232,21 @@ def expanded_task(task):
     G.add_edges_from(task["edges"])
     nf = task["node_flow"] or {}
     cover = "PathCover" in task["cls"]
+    nl = task.get("node_length")
     edges = []
     ignore = []
     for v in G.nodes():
         f = nf.get(v)
         if cover:
             edges.append((v + ".0", v + ".1"))
+        elif nl is not None:
+            edges.append((v + ".0", v + ".1", f, nl.get(v)))       # the node's length sits on its edge, connectors have length 0
         else:
             edges.append((v + ".0", v + ".1", f))
             if f is None:
                 ignore.append([v + ".0", v + ".1"])
     for (u, v) in G.edges():
-        edges.append((u + ".1", v + ".0") if cover else (u + ".1", v + ".0", None))
+        edges.append((u + ".1", v + ".0") if cover else ((u + ".1", v + ".0", None, 0) if nl is not None else (u + ".1", v + ".0", None)))
         ignore.append([u + ".1", v + ".0"])
     for v in task["ignored"]:
         ignore.append([v + ".0", v + ".1"])
